@@ -13,6 +13,10 @@ var verifPanicObservers sync.Map // *RawMessageFilter -> func(interface{}, inter
 
 // VerifObserveRecoveredPanics registers an observer for panics that processConsensusMessage recovers from.
 func (f *RawMessageFilter) VerifObserveRecoveredPanics(fn func(r interface{}, message interfaces.ConsensusMessage)) {
+	if fn == nil {
+		verifPanicObservers.Delete(f)
+		return
+	}
 	verifPanicObservers.Store(f, fn)
 }
 
